@@ -107,6 +107,31 @@ fn float_case<R: dashu_float::round::Round, const B: Word>(log: &mut Log, mode: 
             outs.push("a", guarded(|| { let mut t = x.clone(); t >>= n; fval(&t) }));
             outs.push("shl-neg", guarded(|| fval(&(x.clone() << -n))));
         }
+        // the remainder operator against the Context method, and the three Euclidean traits in every ownership form
+        // (quotient only, remainder only, both: encoded like the rational Euclidean forms)
+        "rem" => {
+            forms_binop!(outs, "", x, y, %, fval);
+            forms_assign!(outs, "", x, y, %=, fval);
+            outs.push("ctx", guarded(|| fval(&ctx.rem(x.repr(), y.repr()).value())));
+        }
+        "euclid" => {
+            use dashu_base::{DivEuclid, DivRemEuclid, RemEuclid};
+            let q = |v: &IBig| json!({"conv": "E", "hq": 1, "hr": 0, "q": enc_i(v), "r": json!(0)});
+            let r = |v: &FBig<R, B>| json!({"conv": "E", "hq": 0, "hr": 1, "q": json!(0), "r": fval(v)});
+            let qr = |a: &IBig, b: &FBig<R, B>| json!({"conv": "E", "hq": 1, "hr": 1, "q": enc_i(a), "r": fval(b)});
+            outs.push("E.q:vv", guarded(|| q(&x.clone().div_euclid(y.clone()))));
+            outs.push("E.q:rv", guarded(|| q(&(&x).div_euclid(y.clone()))));
+            outs.push("E.q:vr", guarded(|| q(&x.clone().div_euclid(&y))));
+            outs.push("E.q:rr", guarded(|| q(&(&x).div_euclid(&y))));
+            outs.push("E.r:vv", guarded(|| r(&x.clone().rem_euclid(y.clone()))));
+            outs.push("E.r:rv", guarded(|| r(&(&x).rem_euclid(y.clone()))));
+            outs.push("E.r:vr", guarded(|| r(&x.clone().rem_euclid(&y))));
+            outs.push("E.r:rr", guarded(|| r(&(&x).rem_euclid(&y))));
+            outs.push("E.qr:vv", guarded(|| { let (a, b) = x.clone().div_rem_euclid(y.clone()); qr(&a, &b) }));
+            outs.push("E.qr:rv", guarded(|| { let (a, b) = (&x).div_rem_euclid(y.clone()); qr(&a, &b) }));
+            outs.push("E.qr:vr", guarded(|| { let (a, b) = x.clone().div_rem_euclid(&y); qr(&a, &b) }));
+            outs.push("E.qr:rr", guarded(|| { let (a, b) = (&x).div_rem_euclid(&y); qr(&a, &b) }));
+        }
         _ => panic!("float op {}", op),
     }
     log.ev(json!({"prop": "C15", "fam": "float", "op": op, "base": B, "mode": mode, "prec": prec, "prec_b": prec_b, "n": n as i64,
@@ -126,13 +151,13 @@ fn float_random(log: &mut Log, rng: &mut Rng) {
     let mode = *rng.pick(MODES);
     let prec = 1 + rng.below(30) as usize;
     let op = *rng.pick(&["add", "sub", "mul", "div", "sqr", "cubic", "inv", "neg", "shl", "shr", "add", "sub",
-                         "powf", "powf", "powi", "sqrt", "exp", "exp_m1", "ln", "ln_1p"]);
+                         "powf", "powf", "powi", "sqrt", "exp", "exp_m1", "ln", "ln_1p", "rem", "euclid", "euclid"]);
     let transcendental = matches!(op, "powf" | "powi" | "sqrt" | "exp" | "exp_m1" | "ln" | "ln_1p");
     // half of the time the right operand has its own (larger or smaller) precision
     let prec_b = if rng.coin() { prec } else { 1 + rng.below(30) as usize };
     let sa = random_sig(rng, base, prec);
     let mut sb = random_sig(rng, base, prec_b);
-    if (op == "div" && sb == IBig::ZERO) || rng.below(16) == 0 {
+    if (matches!(op, "div" | "rem" | "euclid") && sb == IBig::ZERO && rng.below(4) != 0) || rng.below(16) == 0 {
         sb = IBig::ONE;
     }
     let sa = if op == "inv" && sa == IBig::ZERO { IBig::ONE } else { sa };
